@@ -79,7 +79,7 @@ claim("C14", "proof",
       "three eos modes, constant-evaluation static_asserts.",
       TB, "Coq proof (list functions) + exhaustive small-scope differential correspondence")
 claim("C15", "proof",
-      "Coq theorems (Properties_C15.v) prove for every width 8/16/32/64, every index inside the width and every underlying value that the model of bitset_base get_bit/set_bit (written through CInt.v, i.e. with C++ integral promotion and shift UB) reads exactly bit n and changes exactly bit n; raw value/equality/visit corollaries. Tied to /repo by running the extracted model and the real bitset_base<T> plus sbeppc-generated set classes (named, by-tag, visit, ==) on the same cases (8/16 bit exhaustive values, patterns for 32/64), under g++ C++11/17(UBSan)/20 and as static_asserts (constant evaluation). The harness schema also has sparse sets with gaps and out-of-order bit indices, and both the tag-based visit and the name-based visit_set are compared.",
+      "Coq theorems (Properties_C15.v) prove for every width 8/16/32/64, every index inside the width and every underlying value that the model of bitset_base get_bit/set_bit (written through CInt.v, i.e. with C++ integral promotion and shift UB) reads exactly bit n and changes exactly bit n; raw value/equality/visit corollaries. Tied to /repo by running the extracted model and the real bitset_base<T> plus sbeppc-generated set classes (named, by-tag, visit, ==) on the same cases (8/16 bit exhaustive values, patterns for 32/64), under g++ C++11/17(UBSan)/20 and as static_asserts (constant evaluation). The harness schema also has sparse sets with gaps and out-of-order bit indices, and both the tag-based visit and the name-based visit_set are compared. The setter's return value is checked to be the very object it was called on (chaining).",
       TB, "Coq proof (Z.testbit algebra over a CInt model) + differential correspondence vs extracted model")
 claim("C19", "proof",
       "Theorems (Properties_C19.v): a complete visit of the image of any well-formed value tree reports exactly ev_level "
@@ -149,7 +149,7 @@ claim("C17", "proof",
       "an accepted header composite lie inside the header (C17_compiled_fills_inside_header). Correspondence: every message "
       "and group level of random schemas with permuted/offset/ref-typed/extra header members and optional counters, "
       "numInGroup in {0,1,7,type max,random}, random background: whole buffer afterwards equals the model's, returned view is "
-      "the header.",
+      "the header. A fixed schema with 64-bit header members carries identifying values beyond 2^32 (schema version, explicit message and group block lengths) and ids at 2^32-1.",
       TB,
       "Coq proof (composite layout, filler spec/frame/read-back) + differential correspondence of the filler model")
 claim("C20", "proof",
@@ -159,7 +159,7 @@ claim("C20", "proof",
       "directory leaves files identical; the unchecked legacy write_file is refuted by vm_compute. Correspondence: LD_PRELOAD "
       "shim failing the k-th mkdir/fopen/write/close for every k x {ENOSPC, EACCES, EIO, short write} for several schemas; "
       "exit status, diagnostic, call trace and directory tree must equal IoModel.run and satisfy the property; determinism "
-      "by repeated runs (fresh, populated, different cwd/locale).",
+      "by repeated runs (fresh, populated, different cwd/locale). The determinism runs also shift the wall clock (time, gettimeofday, clock_gettime through the LD_PRELOAD shim) by more than a year.",
       TB + " Partial: determinism has no proof content in a functional model; EINTR/stdout failures not modelled.",
       "Coq proof over an I/O plan model with a fault oracle + fault enumeration through an LD_PRELOAD shim")
 
@@ -222,7 +222,7 @@ claim("C18", "proof",
       "presence rule, children tag lists in schema order, schema tags distinct, tag-kind predicates exclusive and total); "
       "copy-through attributes (name, id, description, versions, min/max/null) are decided by correspondence only: a "
       "generated trait-dump TU prints every trait of every entity of random schemas and is compared line by line with the "
-      "model / AST expectation (15k trait lines in quick). A fixed boundary schema puts every numeric copy-through trait at the limit of its C++ type (message ids beyond 16 bits, member ids at 65535, 64-bit versions, offsets / lengths / block lengths beyond 32 bits).",
+      "model / AST expectation (15k trait lines in quick). A fixed boundary schema puts every numeric copy-through trait at the limit of its C++ type (message ids beyond 16 bits, member ids at 65535, 64-bit versions, offsets / lengths / block lengths beyond 32 bits). The fixed schemas also contain enum / set types whose encodingType names a <type>, a nested composite with its own offset, and control characters followed by octal digits in descriptions.",
       TB, "Coq proof (derived traits) + differential trait dump")
 
 claim("C11", "proof",
